@@ -9,6 +9,13 @@ Import ListNotations.
 Definition is_cring {F} (O : ScalarOps F) : Prop :=
   ring_theory (f0 O) (f1 O) (fadd O) (fmul O) (fsub O) (fneg O) (@eq F).
 
+Lemma seq_shift_map : forall s n, seq s n = map (fun y => s + y) (seq 0 n).
+Proof.
+  intros s n. revert s. induction n as [|n IH]; intros s; [reflexivity|].
+  cbn [seq map]. rewrite Nat.add_0_r. f_equal.
+  rewrite (IH (S s)), (IH 1), map_map. apply map_ext. intros y. lia.
+Qed.
+
 Section Sums.
   Context {F : Type} (O : ScalarOps F) (R : is_cring O).
 
@@ -169,5 +176,80 @@ Section Sums.
     intros A p f l. induction l as [|x l IH]; cbn [map filter].
     - rewrite vsum_nil. ring.
     - rewrite vsum_cons, IH. destruct (p x); cbn [negb map]; rewrite vsum_cons; ring.
+  Qed.
+
+  (** ** indicator sums *)
+
+  (** a sum over a filtered list is the sum of the indicator-weighted terms *)
+  Lemma vsum_filter_ind : forall {A} (p : A -> bool) (f : A -> F) l,
+      vsum O (map f (filter p l)) = vsum O (map (fun x => if p x then f x else 0) l).
+  Proof.
+    intros A p f l. induction l as [|x l IH]; cbn [map filter]; [reflexivity|].
+    destruct (p x); cbn [map]; rewrite !vsum_cons, IH; ring.
+  Qed.
+
+  Lemma vsum_ind_false : forall {A} (p : A -> bool) (f : A -> F) l,
+      (forall x, In x l -> p x = false) ->
+      vsum O (map (fun x => if p x then f x else 0) l) = 0.
+  Proof.
+    intros A p f l H. apply vsum_zeros. intros y Hy. apply in_map_iff in Hy.
+    destruct Hy as (x & <- & Hx). rewrite (H x Hx). reflexivity.
+  Qed.
+
+  (** pulling an indicator into a sum *)
+  Lemma vsum_ind_in : forall {A} (c : bool) (f : A -> F) l,
+      (if c then vsum O (map f l) else 0) = vsum O (map (fun x => if c then f x else 0) l).
+  Proof. intros A c f l. destruct c; [reflexivity|]. symmetry. apply vsum_map_0. Qed.
+
+  (** the left fold that adds the selected terms to an accumulator *)
+  Lemma fold_acc_ind : forall {A} (p : A -> bool) (f : A -> F) l init,
+      fold_left (fun acc i => if p i then acc + f i else acc) l init
+      = init + vsum O (map (fun i => if p i then f i else 0) l).
+  Proof.
+    intros A p f l. induction l as [|i l IH]; intros init; cbn [fold_left map].
+    - rewrite vsum_nil. ring.
+    - rewrite IH, vsum_cons. destruct (p i); ring.
+  Qed.
+
+  (** Kronecker delta *)
+  Lemma vsum_delta_seq : forall (v : nat -> F) k n,
+      k < n -> vsum O (map (fun o => if k =? o then v o else 0) (seq 0 n)) = v k.
+  Proof.
+    intros v k n. induction n as [|n IH]; intros Hk; [lia|].
+    rewrite seq_S, map_app, vsum_app. cbn [Nat.add map]. rewrite vsum_single.
+    destruct (Nat.eq_dec k n) as [->|Hne].
+    - rewrite Nat.eqb_refl. rewrite vsum_ind_false; [ring|].
+      intros x Hx. apply in_seq in Hx. apply Nat.eqb_neq. lia.
+    - rewrite IH by lia. replace (k =? n) with false by (symmetry; apply Nat.eqb_neq; exact Hne).
+      ring.
+  Qed.
+
+  (** summing fibre by fibre: [sum_j [p (g j)] f j = sum_{o < P} [p o] sum_j [g j = o] f j] *)
+  Lemma vsum_fiber : forall {A} (g : A -> nat) (p : nat -> bool) (f : A -> F) P l,
+      (forall j, In j l -> g j < P) ->
+      vsum O (map (fun j => if p (g j) then f j else 0) l)
+      = vsum O (map (fun o => if p o
+                              then vsum O (map (fun j => if g j =? o then f j else 0) l)
+                              else 0) (seq 0 P)).
+  Proof.
+    intros A g p f P l Hg.
+    transitivity (vsum O (map (fun o => vsum O (map (fun j => if p o then (if g j =? o then f j else 0) else 0) l)) (seq 0 P))).
+    2:{ apply vsum_map_ext. intros o _. symmetry. apply vsum_ind_in. }
+    rewrite vsum_exchange. f_equal. apply map_ext_in. intros j Hj.
+    rewrite <- (vsum_delta_seq (fun o => if p o then f j else 0) (g j) P (Hg j Hj)).
+    f_equal. apply map_ext. intros o. destruct (p o), (g j =? o); reflexivity.
+  Qed.
+
+  (** a sum over [A * B] consecutive positions, row by row *)
+  Lemma vsum_seq_mul : forall (f : nat -> F) (A B : nat),
+      vsum O (map f (seq 0 (Nat.mul A B)))
+      = vsum O (map (fun i => vsum O (map (fun y => f (Nat.add (Nat.mul B i) y)) (seq 0 B)))
+                    (seq 0 A)).
+  Proof.
+    intros f A B. induction A as [|A IH]; [reflexivity|].
+    replace (Nat.mul (S A) B) with (Nat.add (Nat.mul A B) B) by lia.
+    rewrite seq_app, map_app, vsum_app, IH. rewrite seq_S, map_app, vsum_app.
+    cbn [Nat.add map]. rewrite vsum_single. f_equal. f_equal.
+    rewrite (seq_shift_map (Nat.mul A B) B), map_map. apply map_ext. intros y. f_equal. lia.
   Qed.
 End Sums.
